@@ -57,7 +57,8 @@ def generate(rng, tier, index):
             if mode == 'predefined':
                 args = rng.choice(['FCC_A1', 'BCC_A2'])
             elif mode == 'exclude':
-                args = rng.choice([['BCC_A2'], ['FCC_A1'], ['BCC_A2']])
+                # (lists may name phases that are not stable at the point - or not in the system at all - before or after the stable ones)
+                args = rng.choice([['BCC_A2'], ['FCC_A1'], ['BCC_A2'], ['SIGMA', 'BCC_A2'], ['BCC_A2', 'SIGMA'], ['SIGMA', 'FCC_A1'], ['LIQUID', 'SIGMA', 'BCC_A2']])
             evals.append({'pt': rng.randrange(len(pts)), 'rule': rng.choice(RULES), 'lab': rng.choice([1, 1.5, 2]), 'mode': mode, 'args': args, 'repeat': rng.random() < 0.4})
         return {'kind': 'real', 'mob': rng.choice(['both', 'both', 'fcc_only', 'bcc_only']), 'cache': rng.choice(['on', 'on', 'off', 'clear_midway']), 'points': pts, 'evals': evals}
     sets = []
